@@ -9,7 +9,8 @@ Definition pc_of (s : state) (t : task) : pc := pcs (tasks s t).
 Record linv (ts : tstate) : Prop := {
   l_conn : has_conn (pcs ts) = true -> exists c, conn_of ts = Some c;
   l_noconn : pcs ts = PIdle \/ connecting (pcs ts) = true -> conn_of ts = None;
-  l_quiet : has_conn (pcs ts) = false -> writer ts = false /\ paused ts = false
+  l_quiet : has_conn (pcs ts) = false -> writer ts = false /\ paused ts = false;
+  l_recv : pcs ts = PRecv -> conn_of ts = None
 }.
 
 (* x: a request that has left the queue but whose program counter still says PWaitSlot (the
@@ -51,7 +52,7 @@ Ltac tcase t' t :=
 (* ---- local updates: the classes of every program counter are unchanged -------------------------- *)
 
 Record same_class (old new : tstate) : Prop := {
-  sc_dead : live (pcs old) = false -> new = old;
+  sc_dead : live (pcs old) = false -> new = old \/ (pcs old = PRecv /\ pcs new = PDone);
   sc_live : live (pcs old) = true -> live (pcs new) = true;
   sc_holds : holds_slot (pcs new) = holds_slot (pcs old);
   sc_wait : pcs new = PWaitSlot <-> pcs old = PWaitSlot;
@@ -76,7 +77,8 @@ Proof.
   - apply (i_wait_nodup _ _ I).
   - intro t. rewrite (sc_wait _ _ (C t)). apply (i_wait _ _ I).
   - intro t. destruct (i_ids _ _ I t) as [H|H]; [left; assumption|].
-    right. rewrite (sc_dead _ _ (C t)); [assumption|]. rewrite H. reflexivity.
+    right. destruct (sc_dead _ _ (C t)) as [E|[E _]]; [rewrite H; reflexivity|rewrite E; assumption|].
+    rewrite H in E. discriminate.
   - intro t. apply (sc_linv _ _ (C t)).
   - intros t c H1 H2. rewrite (sc_has _ _ (C t)) in H1. rewrite (sc_conn _ _ (C t)) in H2.
     apply (i_conn _ _ I t c H1 H2).
@@ -87,7 +89,8 @@ Proof.
   - apply (i_idle _ _ I).
   - intros t fl a c P E. destruct (live (pcs (tasks s t))) eqn:L.
     + exfalso. apply (live_not_failed (f t) fl a); [apply (sc_live _ _ (C t) L)|assumption].
-    + rewrite (sc_dead _ _ (C t) L) in P, E. apply (i_failed_conn _ _ I t fl a c P E).
+    + destruct (sc_dead _ _ (C t) L) as [X|[_ X]]; [|rewrite X in P; discriminate].
+      rewrite X in P, E. apply (i_failed_conn _ _ I t fl a c P E).
   - apply (i_closed_lt _ _ I).
 Qed.
 
@@ -212,8 +215,8 @@ Proof. intro. apply In_remove_t. Qed.
 
 (* common part of "the request ends": its task state becomes v (dead pc, same connection record, quiet) *)
 Lemma give_back_inv s t v idle' closed' :
-  Inv s -> live (pc_of s t) = true -> live (pcs v) = false -> pcs v <> PIdle ->
-  conn_of v = conn_of (tasks s t) -> writer v = false -> paused v = false ->
+  Inv s -> pc_of s t <> PIdle -> live (pcs v) = false -> pcs v <> PIdle ->
+  (pcs v = PRecv -> conn_of v = None) -> writer v = false -> paused v = false ->
   (* the connection of t (if it has one) ends up closed or idle; nothing else changes in those lists *)
   NoDup idle' ->
   (forall c, In c idle' -> (In c (idle s) \/ (has_conn (pc_of s t) = true /\ conn_of (tasks s t) = Some c)) /\ ~ In c closed') ->
@@ -237,7 +240,7 @@ Proof.
     + split; [intros [_ H]; congruence|]. intros [H _]. congruence.
     + rewrite (i_wait _ _ I t'). unfold pc_of. tauto.
   - intro t'. tcase t' t; [|apply (i_ids _ _ I)].
-    left. destruct (i_ids _ _ I t) as [H|H]; [assumption|]. unfold pc_of in L. rewrite H in L. discriminate.
+    left. destruct (i_ids _ _ I t) as [H|H]; [assumption|]. exfalso. apply L. unfold pc_of. rewrite H. reflexivity.
   - intro t'. tcase t' t; [|apply (i_local _ _ I)].
     split; rewrite ?Hcv; intros; try discriminate; auto.
     destruct H as [H|H]; [congruence|]. destruct (pcs v) as [| | | | |[|]| | |]; simpl in *; congruence.
@@ -259,33 +262,47 @@ Proof.
   - intros c H. destruct (Hc c H) as [H'|[H1 H2]]; [apply (i_closed_lt _ _ I c H')|apply (i_conn _ _ I t c H1 H2)].
 Qed.
 
+Lemma pending_not_idle p : pending p = true -> p <> PIdle.
+Proof. intros H E. rewrite E in H. discriminate. Qed.
+
+Lemma no_conn_record ts : linv ts -> has_conn (pcs ts) = false -> pending (pcs ts) = true -> conn_of ts = None.
+Proof.
+  intros L H P. destruct (pcs ts) as [| | | | |[|]| | |] eqn:E; simpl in *; try discriminate.
+  - apply (l_noconn _ L). rewrite E. auto.
+  - apply (l_noconn _ L). rewrite E. auto.
+  - apply (l_noconn _ L). rewrite E. auto.
+  - apply (l_recv _ L). assumption.
+Qed.
+
 Lemma fail_give_back_inv s t f :
-  Inv s -> live (pc_of s t) = true ->
+  Inv s -> pending (pc_of s t) = true ->
   Inv (give_back s t (failed (tasks s t) f (now s)) (idle s) (close_conn_of (tasks s t) (closedc s))).
 Proof.
   intros I L. pose proof (i_local _ _ I t) as Lt.
   apply give_back_inv; simpl; auto; try discriminate.
+  - now apply pending_not_idle.
   - apply (i_idle_nodup _ _ I).
   - intros c H. split; [left; assumption|]. unfold close_conn_of.
     destruct (conn_of (tasks s t)) as [c0|] eqn:E; [|apply (i_idle _ _ I c H)].
     rewrite In_add_closed. intros [->|H']; [|apply (i_idle _ _ I c H); assumption].
     destruct (has_conn (pc_of s t)) eqn:Hc.
     + destruct (i_conn _ _ I t c0 Hc E) as [_ [_ Z]]. contradiction.
-    + assert (conn_of (tasks s t) = None); [|congruence].
-      apply (l_noconn _ Lt). unfold pc_of in *. destruct (pcs (tasks s t)) as [| | | | |[|]| | |]; simpl in *; auto; discriminate.
+    + pose proof (no_conn_record _ Lt Hc L). congruence.
   - intros c. unfold close_conn_of. destruct (conn_of (tasks s t)) as [c0|] eqn:E; [|auto].
     rewrite In_add_closed. intros [->|H]; [|auto]. right. split; [|reflexivity].
     destruct (has_conn (pc_of s t)) eqn:Hc; [reflexivity|].
-    assert (conn_of (tasks s t) = None); [|congruence].
-    apply (l_noconn _ Lt). unfold pc_of in *. destruct (pcs (tasks s t)) as [| | | | |[|]| | |]; simpl in *; auto; discriminate.
+    pose proof (no_conn_record _ Lt Hc L). congruence.
   - intros c H. unfold close_conn_of. destruct (conn_of (tasks s t)); [rewrite In_add_closed; auto|assumption].
   - intros fl a c _ E. unfold close_conn_of. rewrite E. rewrite In_add_closed. auto.
 Qed.
 
-Lemma fail_inv g s t f : Inv s -> live (pc_of s t) = true -> Inv (fail g s t f).
+Lemma fail_inv g s t f : Inv s -> pending (pc_of s t) = true -> Inv (fail g s t f).
 Proof.
   intros I L. unfold fail. destruct (holds_slot _); [apply wake_inv|]; now apply fail_give_back_inv.
 Qed.
+
+Lemma live_pending p : live p = true -> pending p = true.
+Proof. intro H. unfold pending. rewrite H. reflexivity. Qed.
 
 Lemma NoDup_snoc {A} (l : list A) x : NoDup l -> ~ In x l -> NoDup (l ++ [x]).
 Proof.
@@ -295,16 +312,16 @@ Proof.
   - apply IH; [assumption|]. intro X. apply H. right. assumption.
 Qed.
 
-Lemma done_give_back_inv s t c :
+Lemma done_give_back_inv s t c r :
   Inv s -> has_conn (pc_of s t) = true -> conn_of (tasks s t) = Some c ->
   Inv (if writer (tasks s t)
-       then give_back s t (done_ts (tasks s t)) (idle s) (add_closed c (closedc s))
-       else give_back s t (done_ts (tasks s t)) (idle s ++ [c]) (closedc s)).
+       then give_back s t (ended_ts (tasks s t) r) (idle s) (add_closed c (closedc s))
+       else give_back s t (ended_ts (tasks s t) r) (idle s ++ [c]) (closedc s)).
 Proof.
   intros I Hc E.
-  assert (L : live (pc_of s t) = true) by (destruct (pc_of s t) as [| | | | |[|]| | |]; simpl in *; congruence).
+  assert (L : pc_of s t <> PIdle) by (intro X; rewrite X in Hc; discriminate).
   destruct (i_conn _ _ I t c Hc E) as [X [Y Z]].
-  destruct (writer (tasks s t)); apply give_back_inv; simpl; auto; try discriminate.
+  destruct (writer (tasks s t)); apply give_back_inv; auto; try (destruct r; simpl; auto; discriminate).
   - apply (i_idle_nodup _ _ I).
   - intros c0 H. split; [left; assumption|]. rewrite In_add_closed. intros [->|H']; [contradiction|].
     apply (i_idle _ _ I c0 H). assumption.
@@ -339,6 +356,7 @@ Proof.
     + exists c. congruence.
     + destruct H4 as [E|E]; [rewrite E in H'; discriminate|].
       destruct (pcs new) as [| | | | |[|]| | |]; simpl in *; discriminate.
+    + rewrite H4 in H'. discriminate.
 Qed.
 
 Lemma step_inv g s e s' : Inv s -> step g s e = Some s' -> Inv s'.
@@ -444,18 +462,29 @@ Proof.
       destruct (rp (tasks s t)) as [|[|]|]; try discriminate; simpl in H;
       try (injection H as <-; apply K; simpl; rewrite ?P; reflexivity);
       (destruct (conn_of (tasks s t)) as [c|] eqn:Ec; [|discriminate]; injection H as <-;
-       apply wake_inv; apply done_give_back_inv; [assumption|unfold pc_of; rewrite P; reflexivity|assumption]).
+       apply wake_inv;
+       first [apply (done_give_back_inv s t c true)|apply (done_give_back_inv s t c false)];
+       [assumption|unfold pc_of; rewrite P; reflexivity|assumption]).
   - (* ERead *)
     pose proof (i_local _ _ I t) as Lt.
     destruct (pcs (tasks s t)) as [| | | | |[|]| | |] eqn:P; try discriminate.
-    destruct (latched (tasks s t)).
-    + injection H as <-. apply fail_inv; [assumption|]. unfold pc_of. rewrite P. reflexivity.
-    + injection H as <-. apply set_task_inv; [assumption|]. apply same_class_keep; auto.
-      * rewrite P. reflexivity.
-      * unfold read_ts. destruct (paused _); reflexivity.
-      * unfold read_ts. destruct (paused _); reflexivity.
+    + destruct (latched (tasks s t)).
+      * injection H as <-. apply fail_inv; [assumption|]. unfold pc_of. rewrite P. reflexivity.
+      * injection H as <-. apply set_task_inv; [assumption|]. apply same_class_keep; auto.
+        -- rewrite P. reflexivity.
+        -- unfold read_ts. destruct (paused _); reflexivity.
+        -- unfold read_ts. destruct (paused _); reflexivity.
+    + (* the body was already there: the caller takes it *)
+      destruct (latched (tasks s t)).
+      * injection H as <-. apply fail_inv; [assumption|]. unfold pc_of. rewrite P. reflexivity.
+      * injection H as <-. apply set_task_inv; [assumption|].
+        pose proof (l_recv _ Lt P) as Cn.
+        split; simpl; rewrite ?P; auto; try discriminate.
+        all: try (split; discriminate).
+        all: split; simpl; intros; try discriminate; auto.
+        all: try (destruct H as [H|H]; discriminate).
   - (* ECancel *)
-    destruct (live (pcs (tasks s t))) eqn:L; [|discriminate]. injection H as <-. now apply fail_inv.
+    destruct (pending (pcs (tasks s t))) eqn:L; [|discriminate]. injection H as <-. now apply fail_inv.
   - (* EFire *)
     pose proof (i_local _ _ I t) as Lt.
     destruct (deadline (tasks s t) w); [|discriminate]. destruct (z <=? now s); [|discriminate].
@@ -464,16 +493,16 @@ Proof.
     { intros v A B C. apply set_task_inv; [assumption|]. apply same_class_keep; auto; rewrite ?A, ?B; reflexivity. }
     destruct w.
     + destruct (awaiting (pcs (tasks s t))) eqn:A.
-      * injection H as <-. apply fail_inv; [assumption|]. unfold pc_of.
+      * injection H as <-. apply fail_inv; [assumption|]. apply live_pending. unfold pc_of.
         destruct (pcs (tasks s t)) as [| | | | |[|]| | |]; simpl in *; congruence.
       * destruct (live (pcs (tasks s t))) eqn:L; [|discriminate]. injection H as <-.
         apply K; [now apply not_awaiting_live| |reflexivity]. simpl. now apply not_awaiting_live.
     + destruct (connecting (pcs (tasks s t))) eqn:A; [|discriminate]. injection H as <-.
-      apply fail_inv; [assumption|]. unfold pc_of. destruct (pcs (tasks s t)) as [| | | | |[|]| | |]; simpl in *; congruence.
+      apply fail_inv; [assumption|]. apply live_pending. unfold pc_of. destruct (pcs (tasks s t)) as [| | | | |[|]| | |]; simpl in *; congruence.
     + destruct (pcs (tasks s t)) eqn:P; try discriminate. injection H as <-.
-      apply fail_inv; [assumption|]. unfold pc_of. rewrite P. reflexivity.
+      apply fail_inv; [assumption|]. apply live_pending. unfold pc_of. rewrite P. reflexivity.
     + destruct (awaiting (pcs (tasks s t))) eqn:A.
-      * injection H as <-. apply fail_inv; [assumption|]. unfold pc_of.
+      * injection H as <-. apply fail_inv; [assumption|]. apply live_pending. unfold pc_of.
         destruct (pcs (tasks s t)) as [| | | | |[|]| | |]; simpl in *; congruence.
       * destruct (live (pcs (tasks s t))) eqn:L; [|discriminate]. injection H as <-.
         apply K; [now apply not_awaiting_live| |reflexivity]. simpl. now apply not_awaiting_live.
